@@ -181,7 +181,7 @@ def names_of(p):
         return [p[1]]
     if t == "seq":
         return [n for it in p[1] for n in names_of(it)]
-    if t == "ann":
+    if t in ("ann", "annparts"):
         return names_of(p[1])
     if t in ("or", "and"):
         out = []
@@ -223,6 +223,8 @@ def src_of(p, top=False):
         return inner if top else "(%s)" % inner
     if t == "ann":
         return "(%s: %s)" % (src_of(p[1]), p[2])
+    if t == "annparts":      # a parenthesised group with one annotation: it applies to every part
+        return ("%s: %s" if top else "(%s: %s)") % (src_of(p[1]), p[2])
     if t == "or":
         return "(%s or %s)" % (src_of(p[1]), src_of(p[2]))
     if t == "and":
@@ -263,7 +265,7 @@ NA = "not-asserted"
 
 
 def has_ann(p):
-    if p[0] == "ann":
+    if p[0] in ("ann", "annparts"):
         return True
     if p[0] == "seq":
         return any(has_ann(x) for x in p[1])
@@ -315,6 +317,17 @@ def match(p, v):
                 return r
             out.update(r)
         return out
+    if t == "annparts":
+        r = match(p[1], v)
+        if r in (FAIL, NA):
+            return r
+        for val in r.values():
+            ok = is_type(val, p[2])
+            if ok is None:
+                return NA
+            if not ok:
+                return FAIL
+        return r
     if t == "ann":
         ok = is_type(v, p[2])
         if ok is None:
@@ -470,7 +483,10 @@ def pattern_pool(tier):
     for T in TYPES:
         pats.append(("ann", N(0), T))
     pats += [("seq", [("ann", N(0), "int"), ("ann", N(1), "str")], "comma"), ("seq", [("ann", N(0), "int"), N(1)], "comma"),
-             ("ann", ("seq", [N(0), N(1)], "bracket"), "list"), ("ann", ("_",), "int"), ("seq", [("ann", ("_",), "number"), ("splat", "r")], "comma")]
+             ("ann", ("seq", [N(0), N(1)], "bracket"), "list"), ("ann", ("_",), "int"),
+             ("annparts", ("seq", [N(0), N(1)], "comma"), "int"), ("annparts", ("seq", [N(0), N(1)], "comma"), "str"), ("annparts", ("seq", [N(0), N(1)], "comma"), "number"),
+             ("annparts", ("seq", [N(0), N(1)], "comma"), "list"), ("annparts", ("seq", [N(0), ("seq", [N(1), N(2)], "comma")], "comma"), "int"),
+             ("annparts", ("seq", [N(0), ("splat", "r")], "comma"), "int"), ("annparts", ("seq", [N(0), N(1), N(2)], "comma"), "anything"), ("seq", [("ann", ("_",), "number"), ("splat", "r")], "comma")]
     # or / and
     pats += [("or", ("lit", cI(1), "1"), ("lit", cI(5), "5")), ("or", ("lit", cI(1), "1"), N(0)), ("or", ("seq", [N(0), N(1)], "comma"), N(2)),
              ("or", ("ann", N(0), "int"), ("ann", N(1), "str")), ("and", N(0), N(1)), ("and", N(0), ("seq", [N(1), N(2)], "comma")),
@@ -497,6 +513,8 @@ def program(ctx, pat, vsrc):
     names = names_of(pat)
     res = result_expr(names)
     if ctx == "declare":
+        if pat[0] == "annparts":       # an annotated group declares with `=`
+            return "%s = %s; %s" % (src_of(pat, top=True), vsrc, res)
         return "%s := %s; %s" % (src_of(pat, top=True), vsrc, res)
     if ctx == "assign":
         decl = "; ".join("%s := \"U0\"" % n for n in names)
